@@ -3,9 +3,15 @@
 # (quick tier, short budget) and reports which are detected. /repo is untouched.
 cd "$(dirname "$(readlink -f "$0")")/.." || exit 2
 secs=${1:-15}
+# optional further arguments: only seeded changes whose directory name starts with one of them (e.g. C01 C12)
+shift
 miss=0; tot=0
 for d in seeded/*/; do
   name=$(basename "$d")
+  if [ $# -gt 0 ]; then
+    keep=0; for pre in "$@"; do case "$name" in "$pre"*) keep=1;; esac; done
+    [ $keep -eq 1 ] || continue
+  fi
   prop=$(python3 -c "import json;print(json.load(open('$d/meta.json'))['property'])")
   extra=$(python3 -c "import json;print(json.load(open('$d/meta.json')).get('check',''))")
   chk=${extra:-$prop}
